@@ -51,16 +51,16 @@ NUMERIC = {"port", "thread_count", "request_allocation_size"}
 # boundary and degenerate values of each setting's domain (the empty list is the documented
 # default of the list settings and a value an operator writes to switch something off)
 DOMAIN = {
-    "ip": ("0.0.0.0", "::1"),
+    "ip": ("0.0.0.0", "::1", "build_host.internal"),
     "port": ("1", "1024", "65534", "65535"),
     "thread_count": ("1", "2", "1000"),
     "request_allocation_size": ("1", "4000", "4001", "1000000"),
     "cors_allow_all": ("true", "false"),
-    "cors_allow_origins": ("", "*", "null"),
-    "cors_allow_methods": ("", "*"),
-    "cors_allow_headers": ("", "*"),
+    "cors_allow_origins": ("", "*", "null", "http://web_app:8080"),
+    "cors_allow_methods": ("", "*", "X_PURGE"),
+    "cors_allow_headers": ("", "*", "x_request_id"),
     "cors_allow_credentials": ("", "true", "false"),
-    "cors_expose_headers": ("", "*"),
+    "cors_expose_headers": ("", "*", "x_trace_id"),
     "cors_max_age": ("0", "1", "4294967295"),
 }
 
@@ -95,6 +95,10 @@ def toml_file(entries, opts=None):
     out = []
     if opts.get("leading_comment"):
         out += ["# rws configuration", ""]
+    if opts.get("padding_bytes"):
+        # a long commented preamble: the keys start beyond this many bytes
+        line = "# " + "x" * 77
+        out += [line] * (opts["padding_bytes"] // 80 + 1)
     out += top
     if cors:
         if opts.get("blank_lines", True):
@@ -331,6 +335,7 @@ def cases(tier):
         {}, {"comments": True}, {"leading_comment": True}, {"eq": "="}, {"eq": "   =   "}, {"blank_lines": False}, {"trailing_table": True},
         {"cors_header": "[cors] # cross origin"}, {"cors_header": "  [cors]"}, {"cors_header": "[ cors ]"}, {"cors_header": "\t[cors]"}, {"cors_header": "  [cors] # indented"},
         {"indent_keys": "  "}, {"indent_keys": "\t"}, {"comments": True, "eq": "=", "cors_header": "  [cors]", "indent_keys": "    "},
+        {"padding_bytes": 1000}, {"padding_bytes": 4096}, {"padding_bytes": 8192}, {"padding_bytes": 70000},
     ]
     for perm_t in itertools.permutations(tops):
         for perm_c in itertools.permutations(cors):
